@@ -50,9 +50,11 @@ def _add_B(c, prio=0, arr=None):
     A = c["classes"]["A"]
     nn = _nn(c)
     B = klass([arr or [1.0, 2.0]] + [None] * (nn - 1), [list(m) for m in A["srv"]], route=copy.deepcopy(A.get("route")), prio=prio)
-    for k in ("renege", "batch", "baulk"):
+    for k in ("batch", "baulk"):
         if k in A:
             B[k] = [None] * nn
+    if "renege" in A:
+        B["renege"] = copy.deepcopy(A["renege"])
     c["classes"]["B"] = B
 
 
@@ -107,7 +109,8 @@ def a_renege(c):
     nn = _nn(c)
     for cl in c["classes"].values():
         cl["renege"] = [None] * nn
-    c["classes"]["A"]["renege"] = [PAT] * nn
+    for cl in c["classes"].values():
+        cl["renege"] = [PAT] * nn          # every class reneges (a class without patience is covered by the C13 families)
     return True
 
 
@@ -139,7 +142,7 @@ def a_ccm(c):
         return False
     _add_B(c, prio=c["classes"].get("B", {}).get("prio", 0))
     for n in c["nodes"]:
-        n["class_change"] = {"A": {"A": 0.5, "B": 0.5}, "B": {"A": 0.0, "B": 1.0}}
+        n["class_change"] = {"A": {"A": 0.0, "B": 1.0}, "B": {"A": 0.5, "B": 0.5}}   # default answer = the class changes
     return True
 
 
@@ -392,7 +395,23 @@ def family(tier, entry=None):
             if entry is not None:
                 c["entry"] = list(entry)
             out.append(c)
+    # triples of the most interacting atoms on the 2-node topology (a defect found late - D20 - needed exactly such a
+    # triple: priorities + class-change matrix + reneging on two nodes)
+    core = CORE if tier == "quick" else CORE + CORE_THOROUGH
+    for combo in itertools.combinations([n for n in names if n in core], 3):
+        c = make("T2", combo, K, T, D)
+        if c is None:
+            continue
+        if entry is not None:
+            c["entry"] = list(entry)
+        out.append(c)
     return out
+
+
+CORE = ["prio", "preempt_resume", "preempt_reroute", "renege", "ccm", "cct_prio", "cap1", "sched", "sched_resume",
+        "slotted_cap_resume", "batch", "baulk", "c2", "LIFO"]
+CORE_THOROUGH = ["preempt_restart", "jockey", "cct", "cap0", "syscap", "sched_reroute", "sched_restart", "slotted", "net_jsq", "process",
+                 "srvprio", "SIRO", "trk_NaiveBlocking", "trk_NodeClassMatrix"]
 
 
 def subset(tier, include, exclude=(), **extra):
